@@ -408,6 +408,20 @@ def run(tier: str) -> Run:
             regs.append(bool(reg.members.get('concrete')) if isinstance(reg, SVar) and 'concrete' in reg.members else (reg if isinstance(reg, bool) else None))
         if generic:
             r6.check(bool(regs) and all(x is True for x in regs), name, loc(irf), {'is_regular': regs}, key='regular:' + name)
+    # the source pulse itself (no chopper yet) is a rectangle: two vertices share the earliest time, two the latest, two each extreme
+    # wavelength - in whatever order the vertices are listed
+    rect = [(0, 1), (4, 1), (4, 3), (0, 3)]
+    for k_rot in range(4):
+        for mirrored in (False, True):
+            order = rect[k_rot:] + rect[:k_rot]
+            if mirrored:
+                order = list(reversed(order))
+            w = World(repo)
+            s_ = w.subframe('S', tuple(t_ for t_, _ in order), tuple(l_ for _, l_ in order))
+            k2, reg = w.call(irf, [], bound=s_)
+            got_reg = bool(reg.members.get('concrete')) if isinstance(reg, SVar) and 'concrete' in reg.members else (reg if isinstance(reg, bool) else None)
+            r6.check(k2 == 'return' and got_reg is True, f'source pulse rectangle, vertices listed from corner {k_rot}{" clockwise" if mirrored else ""}', loc(irf),
+                     {'is_regular': got_reg, 'outcome': k2, 'vertices': order}, key='regular:rectangle')
     w = World(repo)
     frame = w.frame(w.scalar('d0', M, 5), [w.subframe('S', (0, 2, 1), (1, 1, 2))])
     ch = w.chopper('C', w.scalar('dc', M, 2), (0,), (50,))
